@@ -15,7 +15,8 @@ RULE = ("target strings by class (dotted IPv4, IPv4 CIDR /0../32 aligned and una
         "IPv6, mapped and garbage targets in a network namespace with a wire log; exclusion FILES through the real option parsing "
         "of every packet command (arp, icmp, udp, tcp, tcp syn/fin/null/xmas, tcp --flags) and of socks/elastic/docker: valid "
         "entries plus one invalid / IPv6 / over-long line combined with -i, --srcmac, -r (exit 1, nothing on the wire) and the "
-        "accepted counterpart (exactly the uncovered addresses on the wire); arp --live with --exclude (first passes observed, then "
+        "accepted counterpart (exactly the uncovered addresses on the wire), also with an exclusion list that covers only the FIRST "
+        "address (or the first /29) of the target block; arp --live with --exclude (first passes observed, then "
         "interrupted); docker / elastic / socks (http and https) against local target listeners with DOCKER_HOST, HTTP_PROXY, "
         "HTTPS_PROXY, ALL_PROXY pointing at a decoy listener, and against target listeners (http and https) that answer every request "
         "with 301/302/307/308 and a Location at the decoy (no connection may go anywhere but to the targets); non-trivial = accepted target / complete or prefix walk / "
@@ -450,7 +451,7 @@ def run(ctx):
             ctx.broken.append(("correspondence: the sx binary does not build", out[-1500:]))
         else:
             ok, _ = ctx.harness_run("c01", ["-e2e", sx, "-e2eset", "refuse", "-out", "e2e.jsonl", "-seed", ctx.seed,
-                                            "-ne2e", 42 if quick else 300], timeout=3000)
+                                            "-ne2e", 46 if quick else 330], timeout=3000)
             if ok:
                 e2e = ctx.read_jsonl(os.path.join(ctx.work, "e2e.jsonl"))
         pending_seen = set()
